@@ -60,7 +60,7 @@ class ExpandingDriver:
         self.alt_mode = case.get("alt_mode", "fresh")
         self.scratch = []
         self.hcache = {}
-        self.depth_extra = 3
+        self.depth_extra = 0 if case["hash"] == "depthdep" else 3  # a longer list is the same key only for prefix-stable strategies
         self.last_alt_probe = False
         if self.rot:
             self.obj = self.R(self.est, self.fpr, max_queue_size=self.q, hash_function=self.hf)
@@ -331,6 +331,8 @@ def run_twins(case, ctx, P):
     in the other"""
     d1 = ExpandingDriver(case, ctx, P)
     tw = case.get("twin")
+    if case["hash"] == "depthdep":
+        tw = 0  # one list serves two filters of different depth only for prefix-stable strategies
     if not tw:
         d1.run()
         return d1
